@@ -17,7 +17,7 @@ func init() {
 	register("C04", checkC04)
 	describe("C04", Meta{
 		Technique: "must-dominance of handshake guards on go/cfg for every simulator function that touches the valid/received lines, must-pass-through of the deferred-release step in VM.Step, and effect confinement of deferred-instruction closures (go/ssa)",
-		Claim:     "Decides the structural 4-phase-handshake clauses of C04 on the simulator side: received is raised only while valid is seen high and lowered only while it is seen low; a producer withdraws valid and advances only after it has seen received; a consumer that raises received either registers a deferred release or lowers it itself; the processor evaluates its deferred releases on every tick (on every normally returning path of VM.Step, whatever the opcode delay state); a deferred release acts on the VM it is executed for, not on a captured one, and is registered under a name computed from the port index it captures (DEFKEY: the registry keeps one pending entry per name). Necessary conditions for exactly-once delivery; the dynamic protocol (e.g. the documented re-sampling race that duplicates values), fan-out timing and the HDL side are not decided.",
+		Claim:     "Decides the structural 4-phase-handshake clauses of C04 on the simulator side: received is raised only while valid is seen high and lowered only while it is seen low; a producer withdraws valid and advances only after it has seen received; a consumer that raises received either registers a deferred release or lowers it itself; the processor evaluates its deferred releases on every tick (on every normally returning path of VM.Step, whatever the opcode delay state); a deferred release acts on the VM it is executed for, not on a captured one, and is registered under a name computed from the port index it captures (DEFKEY: the registry keeps one pending entry per name); an instruction writes valid/received lines only element by element at the port it names, never with clear/copy/whole-array or all-ports loops (HS6). Necessary conditions for exactly-once delivery; the dynamic protocol (e.g. the documented re-sampling race that duplicates values), fan-out timing and the HDL side are not decided.",
 		Note:      "The handshake users are discovered from the code (every function of pkg/procbuilder that indexes InputsValid/InputsRecv/OutputsValid/OutputsRecv), not listed. Index identity is by expression text within one function.",
 		DesignRef: "DESIGN.md §2 C04",
 	})
@@ -351,6 +351,9 @@ func checkC04(r *core.Run) {
 		}
 	})
 
+	// ---- HS6: an instruction touches only the handshake lines of the port it names
+	c04OwnPort(r, prog)
+
 	// ---- DEFERRED: closures handed to AddDeferredInstruction act on their own parameter
 	deferredClosureConfinement(r, prog, "C04")
 }
@@ -646,4 +649,151 @@ func keyDependsOnCell(prog *core.Program, fn *ssaFn, nameVal ssa.Value, cell ssa
 		return false, "registering helper " + core.SSAFuncKey(fn) + " has no resolved call site"
 	}
 	return true, ""
+}
+
+
+// c04OwnPort (C04/HS6): the valid/received lines of a port belong to the bond attached to that port.
+// An instruction (a Simulate method of pkg/procbuilder, the closures it registers and the VM helper
+// methods it calls) may write them only element by element, at an index that is not a loop variable:
+// `clear(vm.InputsRecv)`, a whole-slice assignment, copy(), or a loop over all ports changes the lines
+// of bonds the instruction does not name — e.g. withdraws an acknowledge another consumer of a
+// fanned-out output is still waiting for.
+func c04OwnPort(r *core.Run, prog *core.Program) {
+	pk := prog.Pkg("pkg/procbuilder")
+	if pk == nil {
+		return
+	}
+	info := pk.TypesInfo
+	hs := map[string]bool{"InputsValid": true, "InputsRecv": true, "OutputsValid": true, "OutputsRecv": true}
+	hsField := func(e ast.Expr) *types.Var {
+		f := core.FieldOf(info, e)
+		if f != nil && hs[f.Name()] && core.IsField(f, "pkg/procbuilder", f.Name()) {
+			return f
+		}
+		return nil
+	}
+	decls := map[types.Object]*ast.FuncDecl{}
+	core.FuncDecls(pk, func(_ *ast.File, fd *ast.FuncDecl) {
+		if o := info.Defs[fd.Name]; o != nil {
+			decls[o] = fd
+		}
+	})
+	nW := 0
+	seen := map[*ast.FuncDecl]bool{}
+	var scan func(fd *ast.FuncDecl, depth int)
+	scan = func(fd *ast.FuncDecl, depth int) {
+		if seen[fd] || depth > 2 {
+			return
+		}
+		seen[fd] = true
+		fkey := core.FuncKey(pk, fd)
+		// loop variables of the function
+		loopVar := map[types.Object]bool{}
+		ast.Inspect(fd.Body, func(n ast.Node) bool {
+			switch x := n.(type) {
+			case *ast.RangeStmt:
+				for _, e := range []ast.Expr{x.Key, x.Value} {
+					if id, ok := e.(*ast.Ident); ok {
+						if o := info.ObjectOf(id); o != nil {
+							loopVar[o] = true
+						}
+					}
+				}
+			case *ast.ForStmt:
+				if as, ok := x.Init.(*ast.AssignStmt); ok {
+					for _, l := range as.Lhs {
+						if id, ok := l.(*ast.Ident); ok {
+							if o := info.ObjectOf(id); o != nil {
+								loopVar[o] = true
+							}
+						}
+					}
+				}
+			}
+			return true
+		})
+		k := 0
+		report := func(pos token.Pos, f *types.Var, what string) {
+			k++
+			r.Violation("C04/HS6", fmt.Sprintf("C04/HS6:%s:%s#%d", fkey, f.Name(), k), prog.Pos(pos), fmt.Sprintf("%s %s: the instruction changes the handshake lines of ports it does not name — e.g. it withdraws an acknowledge that the other consumer of a fanned-out output has not matched yet, so the producer never sees the conjunction and the value is read again, or raises valid on a port nothing was written to", fkey, what))
+		}
+		ast.Inspect(fd.Body, func(n ast.Node) bool {
+			switch x := n.(type) {
+			case *ast.CallExpr:
+				if id, ok := x.Fun.(*ast.Ident); ok && (id.Name == "clear" || id.Name == "copy") && len(x.Args) >= 1 {
+					if _, isB := info.Uses[id].(*types.Builtin); isB {
+						if f := hsField(x.Args[0]); f != nil {
+							nW++
+							report(x.Pos(), f, id.Name+"s the whole "+f.Name()+" array")
+						}
+					}
+				}
+				if c := core.CalleeOf(info, x); c != nil {
+					if d, ok := decls[c]; ok && core.RecvTypeName(info, d) == "VM" && d.Name.Name != "Init" && d.Name.Name != "CopyState" {
+						scan(d, depth+1)
+					}
+				}
+			case *ast.AssignStmt:
+				for _, l := range x.Lhs {
+					if f := hsField(l); f != nil {
+						nW++
+						report(x.Pos(), f, "replaces the whole "+f.Name()+" array")
+						continue
+					}
+					ie, ok := ast.Unparen(l).(*ast.IndexExpr)
+					if !ok {
+						continue
+					}
+					f := hsField(ie.X)
+					if f == nil {
+						continue
+					}
+					nW++
+					byLoop := false
+					ast.Inspect(ie.Index, func(m ast.Node) bool {
+						if id, ok := m.(*ast.Ident); ok && loopVar[info.ObjectOf(id)] {
+							byLoop = true
+						}
+						return true
+					})
+					if byLoop {
+						report(x.Pos(), f, "writes "+f.Name()+" at a loop variable, i.e. for every port")
+					}
+				}
+			}
+			return true
+		})
+		if k == 0 {
+			r.OK("C04/HS6", "C04/HS6:"+fkey, prog.Pos(fd.Pos()), "handshake lines are written one element at a time, at the named port")
+		}
+	}
+	core.FuncDecls(pk, func(_ *ast.File, fd *ast.FuncDecl) {
+		if fd.Name.Name != "Simulate" || fd.Recv == nil {
+			return
+		}
+		// only instructions that touch a handshake line at all
+		touches := false
+		ast.Inspect(fd.Body, func(n ast.Node) bool {
+			if sel, ok := n.(*ast.SelectorExpr); ok && hsField(sel) != nil {
+				touches = true
+			}
+			if call, ok := n.(*ast.CallExpr); ok {
+				if c := core.CalleeOf(info, call); c != nil {
+					if d, ok := decls[c]; ok && core.RecvTypeName(info, d) == "VM" {
+						ast.Inspect(d.Body, func(m ast.Node) bool {
+							if sel, ok := m.(*ast.SelectorExpr); ok && hsField(sel) != nil {
+								touches = true
+							}
+							return true
+						})
+					}
+				}
+			}
+			return !touches
+		})
+		if touches {
+			scan(fd, 0)
+		}
+	})
+	r.Count("handshake_line_writes", nW)
 }
